@@ -640,6 +640,8 @@ def _observe_worker(chunk, st: Stats, max_len):
             if nontrivial:
                 st.distinct("nontrivial", [jd, init, j0, [], ["observe", L]])
         st.add("observe_multisets", len(ms))
+        if len(devs) == 1 and init == "G4":
+            st.sample({"kind": "history", "devs": jd, "init": init, "history": [["observe", ms[len(ms) // 2]]]})
 
 
 # ------------------------------------------------------------------ leg C: gate off, other ctx shapes / unvalidated "absent" gate
@@ -654,6 +656,8 @@ def _gate_worker(chunk, st: Stats, thorough):
             for sig, what in check_gate_off(c, sj, ops, st, off_contexts(c)):
                 st.violation(sig, what, {"kind": "gate_off_shapes", "devs": jd, "store": json.loads(sj)})
             st.distinct("outcomes", ["gate_off", sj == "null"])
+        if devs == {"mode": "proportional"}:
+            st.sample({"kind": "gate_off_shapes", "devs": jd, "store": json.loads(starts[1])})
         if not devs:
             # gate absent == off (default OFF per docs): no graph key / empty graph block
             for label, root in (("no-graph-key", {}), ("empty-graph-block", {"graph": {}})):
